@@ -27,6 +27,8 @@ type UDFNode struct {
 	wg      sync.WaitGroup
 	mu      sync.Mutex
 	stopped bool
+	// ready is set once the udf is open, initialized and restored.
+	ready bool
 }
 
 // Create a new UDFNode that sends incoming data to child udf
@@ -89,6 +91,10 @@ func (n *UDFNode) runUDF(snapshot []byte) (err error) {
 		}
 	}
 
+	n.mu.Lock()
+	n.ready = true
+	n.mu.Unlock()
+
 	forwardErr := make(chan error, 1)
 	go func() {
 		out := n.udf.Out()
@@ -140,6 +146,13 @@ func (n *UDFNode) abortedCallback() {
 }
 
 func (n *UDFNode) snapshot() ([]byte, error) {
+	n.mu.Lock()
+	ready := n.ready
+	n.mu.Unlock()
+	if !ready {
+		// The connection to the udf is not open yet, or its state is still being restored.
+		return nil, errors.New("udf is not ready for a snapshot")
+	}
 	return n.udf.Snapshot()
 }
 
